@@ -20,6 +20,16 @@ def corpus():
         # unknown names are preserved verbatim; changes while a request is in flight are reported on the next idle
         (L.Sched(labels=["D0", "S*", "i1:" + e, "S*", N("fingerprint"), N("Player"), "D0", "S*", "D0"] + L.flush(1), note="changes during a request; unknown names"), ["fingerprint", "Player"]),
         (L.Sched(labels=["D0", "S*", N("player"), "D0", "S*", N("player"), "D0", "S*", N("player"), "D1", "D1", "D0"] + L.flush(0), note="same subsystem three times"), ["player"] * 3),
+    ] + [
+        # the idle reply arrives in three pieces and the request is issued between the second and the third
+        (L.Sched(labels=["D0", "S*", N("player"), f"D{k}", "D1", "c1:" + e, "D0", "S*", "D0"] + L.flush(1), note=f"idle reply cut after {k} and {k + 1} bytes, request in between"), ["player"])
+        for k in range(1, 18)
+    ] + [
+        # more changes in one reply / more unpolled events than any bounded queue would hold
+        (L.Sched(labels=["D0"] + [N(L.SUBSYSTEMS[i % 14]) for i in range(5000)] + ["S*", "D0"] + L.flush(0), note="5000 changes in one idle reply"),
+         [L.SUBSYSTEMS[i % 14] for i in range(5000)]),
+        (L.Sched(labels=["D0", "S*", "q"] + sum([[N(L.SUBSYSTEMS[i % 14]), "D0", "S*"] for i in range(300)], []) + ["c1:" + e, "S*", "D0", "S*", "D0", "Q"] + L.flush(1),
+                 note="300 notifications while the event stream is not polled, then a request"), [L.SUBSYSTEMS[i % 14] for i in range(300)]),
     ]
 
 
